@@ -590,6 +590,8 @@ def _fields_read(fn, e, depth=0):
         h = expr_helper(x) if depth < 2 else None
         if h is not None:
             out |= _fields_read(h[0], h[1], depth + 1)
+        elif x['k'] == 'call' and x.get('conv') and is_node(x.get('obj')) and field_name(strip_casts(x['obj'])):
+            pass              # `if (m_handler)`: a conversion operator on a field reads that field only (already collected)
         elif x['k'] == 'call' and 'opc' not in x and x.get('usr') and depth < 2 and FX is not None and FX.by_usr(x['usr']) and x.get('callee', '').startswith('sim::'):
             out.add('*')      # an opaque repository call: unknown reads
     return out
